@@ -73,6 +73,8 @@ Faults == <<
   <<"malformed", "char-truncated-escape", "li x5, '\\x4'">>,
   <<"malformed", "char-lone-backslash", "KU = '\\'">>,
   <<"malformed", "string-truncated-unicode", "string ab\\u12">>,
+  \* an escape that decodes to a lone surrogate: text that has no UTF-8 encoding
+  <<"malformed", "string-lone-surrogate", "string ab\\ud800">>,
   \* lines whose keyword is written in another case: the documentation does not say whether that is legal, so they may be
   \* accepted or refused - but never with an internal exception (class "either": FaultRefused does not apply)
   <<"either", "shorthand-upper", "DD 1">>,
